@@ -10,6 +10,7 @@ import (
 	"encoding/hex"
 	"encoding/json"
 	"fmt"
+	"io"
 	"math/big"
 	"os"
 	"reflect"
@@ -34,6 +35,8 @@ type c06Case struct {
 	SIMap     bool        `json:"simap"`
 	StructVal bool        `json:"structval"`
 	ListSlice bool        `json:"listslice"`
+	IO        string      `json:"io"`    // "" (NewDecoder on the bytes) | "reader" | "overwrite"
+	Chunk     int         `json:"chunk"` // selects the chunk sizes of the reader
 	Q         [][2]string `json:"q"`
 }
 
@@ -255,7 +258,20 @@ func runCase(line []byte, out *json.Encoder) error {
 		return out.Encode(&obs)
 	}
 	dst := reflect.New(t) // zero-initialised destination
-	dec := hio.NewDecoder(data).Simple(c.Simple)
+	var dec *hio.Decoder
+	var owned []byte
+	switch c.IO {
+	case "reader":
+		// a stream decoder: the value is followed by more values, so the read buffer is refilled afterwards
+		all := append(append([]byte{}, data...), filler...)
+		dec = hio.NewDecoderFromReader(&chunkReader{data: all, k: c.Chunk, head: len(data)}).Simple(c.Simple)
+	case "overwrite":
+		// the caller reuses its input slice after decoding
+		owned = append(append([]byte{}, data...), filler...)
+		dec = hio.NewDecoder(owned).Simple(c.Simple)
+	default:
+		dec = hio.NewDecoder(data).Simple(c.Simple)
+	}
 	switch c.Long {
 	case "uint":
 		dec.LongType = hio.LongTypeUint
@@ -294,6 +310,22 @@ func runCase(line []byte, out *json.Encoder) error {
 			obs.Msg = dec.Error.Error()
 		} else {
 			obs.Out = "ok"
+			switch c.IO {
+			case "reader":
+				// keep reading: whatever the decoded value still shares with the read buffer is overwritten now
+				for i := 0; i < 3; i++ {
+					var s string
+					dec.Decode(&s)
+				}
+				if dec.Error != nil {
+					obs.Out = "err"
+					obs.Msg = "after the value: " + dec.Error.Error()
+				}
+			case "overwrite":
+				for i := range owned {
+					owned[i] = 'x'
+				}
+			}
 		}
 	}()
 	if obs.Out == "ok" {
@@ -314,6 +346,57 @@ func runCase(line []byte, out *json.Encoder) error {
 	}
 	return out.Encode(&obs)
 }
+
+// chunkReader hands the stream out in small, irregular pieces: the decoder has to refill its buffer
+type chunkReader struct {
+	data []byte
+	pos  int
+	k    int // chunking pattern
+	n    int
+	head int // length of the value under test (the filler follows)
+}
+
+var chunkSizes = []int{1, 3, 7, 64, 2, 256, 5, 31, 300, 11}
+
+func (r *chunkReader) Read(p []byte) (int, error) {
+	if r.pos >= len(r.data) {
+		return 0, io.EOF
+	}
+	n := 0
+	switch r.k % 3 {
+	case 0:
+		// a chunk ends right before every double quote: a window of the buffer that ends with the content
+		// of a string or byte string is followed by a refill when the closing quote is skipped
+		n = len(r.data) - r.pos
+		for j := r.pos + 1; j < len(r.data); j++ {
+			if r.data[j] == '"' {
+				n = j - r.pos
+				break
+			}
+		}
+	case 1:
+		// byte by byte through the value, then whole buffers
+		n = 1
+		if r.pos >= r.head {
+			n = 256
+		}
+	default:
+		n = chunkSizes[(r.k/3+r.n)%len(chunkSizes)]
+		r.n++
+	}
+	if n > len(p) {
+		n = len(p)
+	}
+	if n > len(r.data)-r.pos {
+		n = len(r.data) - r.pos
+	}
+	copy(p, r.data[r.pos:r.pos+n])
+	r.pos += n
+	return n, nil
+}
+
+// three further values of 300 characters each: longer than the decoder's 256-byte read buffer
+var filler = []byte(strings.Repeat(`s300"`+strings.Repeat("x", 300)+`"`, 3))
 
 type fieldOut struct {
 	Alias string `json:"alias"`
